@@ -46,17 +46,20 @@ var c10Subjects = []string{"plain subject", "GrÃ¼ÃŸe aus MÃ¼nchen", "æ—¥æœ¬èªã
 var c10FileNames = []string{"file.txt", "image.png", "with space.txt", "Ã¼mlaut.txt", "æ—¥æœ¬èª.pdf", "semi;colon.txt", "equals=sign.txt", "a;b=c;d.bin", "comma,name.txt", "paren(1).txt", "percent%20.txt", "UPPER.TXT", "noext", "emojiğŸ˜€.png", "dot.", "a-very-long-file-name-that-goes-on-and-on-and-on-for-more-than-seventy-characters-in-total.txt",
 	"Ğ´Ğ»Ğ¸Ğ½Ğ½Ğ¾Ğµ-Ğ¸Ğ¼Ñ-Ñ„Ğ°Ğ¹Ğ»Ğ°-ĞºĞ¾Ñ‚Ğ¾Ñ€Ğ¾Ğµ-Ğ¿Ñ€ĞµĞ²Ñ‹ÑˆĞ°ĞµÑ‚-ÑĞµĞ¼ÑŒĞ´ĞµÑÑÑ‚-Ğ¿ÑÑ‚ÑŒ-ÑĞ¸Ğ¼Ğ²Ğ¾Ğ»Ğ¾Ğ²-Ğ²-ĞºĞ¾Ğ´Ğ¸Ñ€Ğ¾Ğ²ĞºĞµ.txt", "ÃœbergrÃ¶ÃŸentrÃ¤ger Ã„nderungsÃ¼bersicht fÃ¼r Ã–sterreich und ZÃ¼rich Ã¼berarbeitet.pdf", "æ—¥æœ¬èªã®ã¨ã¦ã‚‚é•·ã„ãƒ•ã‚¡ã‚¤ãƒ«åã§ã‚¨ãƒ³ã‚³ãƒ¼ãƒ‰ã•ã‚ŒãŸå˜èªãŒè¤‡æ•°ã«åˆ†å‰²ã•ã‚Œã‚‹ä¾‹.pdf", "long name with spaces and Ã¼mlauts Ã¤Ã¶Ã¼ that needs several encoded words to fit.txt"}
 
+// display names: the C06 set plus pure-ASCII names with list separators (written as quoted-strings, not encoded-words)
+var c10Names = append(append([]string{}, c06Names[:9]...), "Doe, John", "Smith; Jane: Dr.", "a,b,c", "Last, First \"Nick\" Middle")
+
 func genC10(r *mrand.Rand, id string) c10Case {
 	np := gen.Pick(r, []int{1, 1, 2, 2, 3})
 	ne := gen.Pick(r, []int{0, 0, 1, 2})
 	na := gen.Pick(r, []int{0, 1, 1, 2})
 	s := gen.MsgSpec{ID: "", Enc: gen.Pick(r, []string{"quoted-printable", "base64", "8bit", "7bit"}), Subject: gen.Pick(r, c10Subjects)}
-	s.From = gen.AddrSpec{Name: gen.Pick(r, c06Names[1:9]), Addr: "sender@example.com"}
+	s.From = gen.AddrSpec{Name: gen.Pick(r, c10Names[1:]), Addr: "sender@example.com"}
 	for i := 0; i < 1+r.Intn(3); i++ {
-		s.To = append(s.To, gen.AddrSpec{Name: gen.Pick(r, c06Names[:9]), Addr: fmt.Sprintf("to%d@example.net", i)})
+		s.To = append(s.To, gen.AddrSpec{Name: gen.Pick(r, c10Names), Addr: fmt.Sprintf("to%d@example.net", i)})
 	}
 	for i := 0; i < r.Intn(3); i++ {
-		s.Cc = append(s.Cc, gen.AddrSpec{Name: gen.Pick(r, c06Names[:9]), Addr: fmt.Sprintf("cc%d@example.org", i)})
+		s.Cc = append(s.Cc, gen.AddrSpec{Name: gen.Pick(r, c10Names), Addr: fmt.Sprintf("cc%d@example.org", i)})
 	}
 	textFor := func(enc string) []byte {
 		var c []byte
